@@ -47,4 +47,17 @@ def fragRun : Live → List Op → Bool
   | _, [] => true
   | l, op :: r => fragOk l op && fragRun (lStep l op).1 r
 
+/-! ### the flat fragment of `C07_partial`: fragment ops on files directly under the root -/
+
+def opFlat : Op → Bool
+  | .open _ p _ => p.length == 1
+  | .writeFile p _ => p.length == 1
+  | .mkdir _ => false
+  | .syncDir p => p == []
+  | _ => true
+
+def flatRun : Live → List Op → Bool
+  | _, [] => true
+  | l, op :: r => fragOk l op && opFlat op && flatRun (lStep l op).1 r
+
 end TV.Fs
